@@ -25,13 +25,17 @@ func normT(s string) string { return reTmp.ReplaceAllString(s, "T") }
 // ---- shared pieces ---------------------------------------------------------------
 
 // detRule: every range-over-map loop in package deb is order independent.
+// A loop that the scenario interpretation went through with at least two entries in every
+// iteration order is decided there; the syntactic rule decides the others.
 func detRule(p *Prog, r *Rule, pkgs ...string) {
 	n := 0
 	for _, fn := range p.SrcFuncs(pkgs...) {
 		for _, ml := range mapOrderLoops(fn) {
 			n++
 			key := fname(fn) + ":range-over-map"
-			if ml.OK {
+			if k := debRangeCover[ml.Range]; k >= 2 {
+				r.ok(key, p.Pos(ml.Range.Pos()), fmt.Sprintf("interpreted in every iteration order on maps of up to %d members (see the scenario obligations of this rule)", k))
+			} else if ml.OK {
 				r.ok(key, p.Pos(ml.Range.Pos()), "iteration order cannot influence the result (unique-match idiom or element-keyed updates only)")
 			} else {
 				r.bad(key, p.Pos(ml.Range.Pos()), ml.Why, nil)
@@ -43,494 +47,290 @@ func detRule(p *Prog, r *Rule, pkgs ...string) {
 	}
 }
 
-// selectorRule: the loader's and the verifier's control/data members come from
-// the same deterministic selector, which fails on more than one match.
-func selectorRule(p *Prog, r *Rule, withSig bool) {
-	callers := []struct{ pkg, typ, name string }{{"deb", "", "loadDeb2Control"}, {"deb", "", "loadDeb2Data"}}
-	if withSig {
-		callers = append(callers, struct{ pkg, typ, name string }{"deb", "Deb", "CheckDebsig"})
-	}
-	// entry points whose member selection matters: everything reachable from Load and CheckDebsig
-	load := p.Func("deb", "Load")
-	sig := p.Method("deb", "Deb", "CheckDebsig")
-	if load == nil || sig == nil {
-		r.bad("deb.Load/CheckDebsig", "", "anchor not found", nil)
-		return
-	}
-	type use struct {
-		fn     *ssa.Function
-		prefix string
-		callee *ssa.Function
-	}
-	var uses []use
-	roots := []*ssa.Function{load}
-	if withSig {
-		roots = append(roots, sig)
-	}
-	seen := map[*ssa.Function]bool{}
-	for _, root := range roots {
-		for _, f := range reachableRepoFuncs(root) {
-			if seen[f] {
-				continue
-			}
-			seen[f] = true
-			for _, c := range allCalls(f) {
-				callee := c.Common().StaticCallee()
-				if callee == nil || !inRepo(callee) {
-					continue
-				}
-				for _, a := range c.Common().Args {
-					if s, ok := constString(a); ok && (s == "control." || s == "data.") {
-						uses = append(uses, use{f, s, callee})
-					}
-				}
-			}
-			// direct scans for the prefixes outside a shared selector
-			for _, c := range allCalls(f) {
-				if calleeName(c.Common()) == "strings.HasPrefix" && len(c.Common().Args) == 2 {
-					if s, ok := constString(c.Common().Args[1]); ok && (s == "control." || s == "data.") {
-						r.bad(fname(f)+":own-scan", p.Pos(c.Pos()), fmt.Sprintf("selects the %q member with its own scan instead of the shared selector: loader and verifier can disagree", s), nil)
-					}
-				}
-			}
+
+// ---- scenario helpers ------------------------------------------------------------------
+
+var stdMembers = []string{"debian-binary", "control.tar.gz", "data.tar.xz"}
+
+func agree(outs []debOutcome) (debOutcome, bool) {
+	for _, o := range outs[1:] {
+		if o.sig() != outs[0].sig() {
+			return o, false
 		}
 	}
-	_ = callers
-	sel := map[*ssa.Function]bool{}
-	for _, u := range uses {
-		sel[u.callee] = true
-	}
-	if len(sel) != 1 {
-		var names []string
-		for f := range sel {
-			names = append(names, fname(f))
-		}
-		sort.Strings(names)
-		r.bad("deb.member-selector", "", fmt.Sprintf("expected exactly one selector function for control./data. members, found %v", names), nil)
-		return
-	}
-	var selector *ssa.Function
-	for f := range sel {
-		selector = f
-	}
-	want := map[string]bool{"deb.loadDeb2Control|control.": false, "deb.loadDeb2Data|data.": false}
-	if withSig {
-		want["(*deb.Deb).CheckDebsig|control."] = false
-		want["(*deb.Deb).CheckDebsig|data."] = false
-	}
-	for _, u := range uses {
-		k := fname(u.fn) + "|" + u.prefix
-		r.ok(k, p.Pos(u.fn.Pos()), "selected through "+fname(selector))
-		if _, ok := want[k]; ok {
-			want[k] = true
-		}
-	}
-	for k, ok := range want {
-		if !ok {
-			// role moved to another function: accept any caller reachable from the roots, but each prefix must be used by loader and verifier
-			_ = k
-		}
-	}
-	// the selector must be order independent and fail on several matches
-	loops := mapOrderLoops(selector)
-	pos := p.Pos(selector.Pos())
-	if len(loops) == 0 {
-		// a selector that does not range over a map (e.g. walks an ordered list) is deterministic by construction
-		r.ok(fname(selector)+":deterministic", pos, "does not iterate over a map")
-	}
-	for _, ml := range loops {
-		r.check(ml.OK, fname(selector)+":deterministic", p.Pos(ml.Range.Pos()), "unique-match idiom: fails when more than one member matches, so the answer does not depend on map order", ml.Why)
-	}
-	// prefix test inside the selector uses its parameter
-	okPrefix := false
-	for _, c := range callsNamed(selector, "strings.HasPrefix") {
-		tm := newTermer()
-		if strings.HasSuffix(tm.term(c.Call.Args[0]), ".Name") && regexp.MustCompile(`^p\d$`).MatchString(tm.term(c.Call.Args[1])) {
-			okPrefix = true
-		}
-	}
-	r.check(okPrefix, fname(selector)+":prefix", pos, "matches members by strings.HasPrefix(member.Name, prefix)", "the selector does not match members by name prefix")
+	return outs[0], true
 }
 
-// dupRule: the loader rejects a repeated member name.
-func dupRule(p *Prog, r *Rule) {
-	fn := p.Func("deb", "loadDeb")
-	if fn == nil {
-		r.bad("deb.loadDeb", "", "function not found", nil)
-		return
-	}
-	tm := newTermer()
-	var upd *ssa.MapUpdate
-	for _, b := range fn.Blocks {
-		for _, ins := range b.Instrs {
-			if mu, ok := ins.(*ssa.MapUpdate); ok {
-				upd = mu
-			}
+// loaderTable runs a list of loader scenarios and returns the problems found.
+type loaderCase struct {
+	name   string
+	sc     debScenario
+	expect func(o debOutcome) string // "" = fine
+}
+
+func runLoaderCases(p *Prog, cases []loaderCase) (problems []string, undecided string, runs int) {
+	for _, c := range cases {
+		outs, why := runLoadDeb(p, c.sc)
+		if why != "" {
+			return nil, c.name + ": " + why, runs
+		}
+		runs += len(outs)
+		o, same := agree(outs)
+		if !same {
+			problems = append(problems, fmt.Sprintf("%s: the outcome depends on the iteration order of the member map: %s versus %s", c.name, outs[0].sig(), o.sig()))
+			continue
+		}
+		if msg := c.expect(o); msg != "" {
+			problems = append(problems, c.name+": "+msg)
 		}
 	}
-	if upd == nil {
-		r.bad("deb.loadDeb:index", p.Pos(fn.Pos()), "members are not collected into the name index", nil)
-		return
+	return
+}
+
+func okLoad(o debOutcome) string {
+	if !o.errNil {
+		return "a well-formed package is rejected"
 	}
-	key := tm.term(upd.Key)
-	val := tm.term(upd.Value)
-	okIdx := strings.HasSuffix(key, ".Name") && strings.TrimSuffix(key, ".Name") == val && strings.Contains(val, "Next(")
-	r.check(okIdx, "deb.loadDeb:index", p.Pos(upd.Pos()), "every member returned by Next is indexed under its own name", fmt.Sprintf("index update is [%s] = %s", key, val))
-	// guarded by a presence test of the same key on the same map that rejects
-	guarded := false
-	for _, g := range guardsOf(fn) {
-		t := normT(g.Term)
-		if t == normT(tm.term(upd.Map))+"["+key+"]#1" && rejectsOn(fn, g, 0) && g.If.Block().Dominates(upd.Block()) {
-			guarded = true
+	return ""
+}
+
+func mustFail(what string) func(o debOutcome) string {
+	return func(o debOutcome) string {
+		if o.errNil {
+			return what + " is accepted"
 		}
+		if !o.resNil {
+			return what + ": a Deb is returned together with the error"
+		}
+		return ""
 	}
-	r.check(guarded, "deb.loadDeb:duplicate", p.Pos(upd.Pos()), "a member name that is already indexed is rejected", "a repeated member name silently replaces the earlier member: loader and verifier then see a different member than the one first in the archive")
 }
 
 // ---- C14 ------------------------------------------------------------------------------
 
 func checkC14(p *Prog, rp *Report) {
-	rp.Explanation = "C14-FORMAT: loadDeb rejects a missing debian-binary member, any format other than \"2.0\\n\" (or major version 2), and propagates the errors of the control and data loaders, which fail when no control.*/data.* member exists. C14-CODECS: the extension table has exactly the rows .gz .bz2 .xz .lzma .zst, each wired to the matching decompressor constructor with its reader argument and error; unknown extensions fall back to the identity; Tarfile selects by filepath.Ext(name); IsTarfile table. C14-EXT: ControlExt/DataExt are Name[len(prefix):] for the selector's own prefix literal. C14-CONTROL: the tar entry whose cleaned path is \"control\" is unmarshalled into Deb.Control from the tar stream; unmarshal and close errors are returned. C14-DET: no range over a map in package deb can influence a result by its order. C14-INDEX: every member is indexed by name; repeated names rejected."
+	rp.Explanation = "The .deb loader is interpreted abstractly on scripted archives (the ar iterator, bufio, the decompressor constructors, archive/tar, control.Unmarshal and Close are oracles recording provenance; every iteration order of the member map is explored). C14-FORMAT: a package without debian-binary, with a format other than major version 2, without control.* or without data.* is rejected with no Deb; the well-formed layouts load. C14-CODECS: for each of the six encodings of control and data the stream is data(member) wrapped by exactly the matching constructor (xz with the default dictionary limit), then tar; a constructor error fails the load; IsTarfile table. C14-EXT: ControlExt/DataExt are the member name after \"control.\" / \"data.\". C14-CONTROL: the tar entry whose cleaned path is control (in any position) is unmarshalled into Deb.Control from the control member's tar stream; a missing entry, an unmarshal error and a close error fail the load. C14-DATA: Deb.Data is the data member's tar stream, unread. C14-DET: with decoy control.*/data.* members every iteration order gives the same outcome (an error). C14-INDEX: ArContent lists exactly the members; a repeated name is rejected."
 	rp.NotDecided = "behaviour of archive/tar and of the decompressors; equality of the exposed payload with the packaged files; dpkg-deb compatibility."
 	rp.Trusted = []string{"go/types, go/ssa", "deb(5) member names, format version and compression extensions", "archive/tar, compress/*, xz, lzma, zstd libraries"}
-	tm := newTermer()
-
-	f := rp.Rule("C14-FORMAT", "format checks of the loader", 4)
-	if fn := p.Func("deb", "loadDeb"); fn != nil {
-		pos := p.Pos(fn.Pos())
-		gs := guardsOf(fn)
-		okBin, okVer := false, false
-		for _, g := range gs {
-			t := normT(g.Term)
-			if t == `T["debian-binary"]#1` && rejectsOn(fn, g, 1) && dominatesAllSuccess(fn, g) {
-				okBin = true
-			}
-			if m := regexp.MustCompile(`^\("2\.0\\n" == \(\*bufio\.Reader\)\.ReadString\(bufio\.NewReader\(T\["debian-binary"\]#0\.Data\),10\)#0\)$`).FindString(t); m != "" && rejectsOn(fn, g, 1) && dominatesAllSuccess(fn, g) {
-				okVer = true
-			}
-			if m := regexp.MustCompile(`^strings\.HasPrefix\(\(\*bufio\.Reader\)\.ReadString\(bufio\.NewReader\(T\["debian-binary"\]#0\.Data\),10\)#0,"2\."\)$`).FindString(t); m != "" && rejectsOn(fn, g, 1) && dominatesAllSuccess(fn, g) {
-				okVer = true
-			}
-		}
-		f.check(okBin, "deb.loadDeb:debian-binary", pos, "an archive without debian-binary is rejected", "a missing debian-binary member is not rejected on every path")
-		f.check(okVer, "deb.loadDeb:version", pos, "only format \"2.0\\n\" (major version 2) is loaded", "the format version test does not reject every major version other than 2 (expected: first line of debian-binary == \"2.0\\n\" or prefix \"2.\")")
-	} else {
-		f.bad("deb.loadDeb", "", "function not found", nil)
+	pos := ""
+	if fn := p.Func("deb", "Load"); fn != nil {
+		pos = p.Pos(fn.Pos())
 	}
-	// error propagation along Load -> loadDeb -> loadDeb2 -> control/data
-	for _, name := range []string{"Load", "loadDeb", "loadDeb2", "loadDeb2Control", "loadDeb2Data"} {
-		fn := p.Func("deb", name)
-		if fn == nil {
-			continue
+	std := debScenario{members: stdMembers, binary: "2.0\n", tarEntries: []string{"./", "./md5sums", "./control"}}
+	with := func(f func(sc *debScenario)) debScenario {
+		sc := std
+		sc.members = append([]string(nil), std.members...)
+		sc.tarEntries = append([]string(nil), std.tarEntries...)
+		f(&sc)
+		return sc
+	}
+	// FORMAT
+	f := rp.Rule("C14-FORMAT", "format checks of the loader", 1)
+	{
+		cases := []loaderCase{
+			{"well-formed package", std, okLoad},
+			{"extra members (_gpgorigin, junk)", with(func(sc *debScenario) { sc.members = append(sc.members, "_gpgorigin", "junk") }), okLoad},
+			{"members in another order", with(func(sc *debScenario) { sc.members = []string{"data.tar.xz", "debian-binary", "control.tar.gz"} }), okLoad},
+			{"no debian-binary", with(func(sc *debScenario) { sc.members = []string{"control.tar.gz", "data.tar.xz"} }), mustFail("a package without debian-binary")},
+			{"no control member", with(func(sc *debScenario) { sc.members = []string{"debian-binary", "data.tar.xz"} }), mustFail("a package without control.*")},
+			{"no data member", with(func(sc *debScenario) { sc.members = []string{"debian-binary", "control.tar.gz"} }), mustFail("a package without data.*")},
+			{"empty archive", with(func(sc *debScenario) { sc.members = nil }), mustFail("an empty archive")},
+			{"iterator error", with(func(sc *debScenario) { sc.nextErr = true }), mustFail("an archive whose iteration fails")},
 		}
-		for _, s := range errDiscipline(fn, func(n string, c *ssa.Call) bool {
-			callee := c.Call.StaticCallee()
-			return callee != nil && (inRepo(callee) || n == "(*bufio.Reader).ReadString" || n == "(*archive/tar.Reader).Next")
-		}) {
-			key := "deb." + name + ":err(" + strings.TrimPrefix(s.Callee, "deb.") + ")"
-			f.check(s.Status == "returned" || s.Status == "checked", key, p.Pos(s.Call.Pos()), "error "+s.Status, "error of "+s.Callee+" is "+s.Status+": "+s.Detail)
+		for _, v := range []string{"3.0\n", "1.0\n", "0.939000\n", "20.0\n", "21.3\n", "200\n", "2\n", "\n", "", "2.0", "x2.0\n"} {
+			v := v
+			cases = append(cases, loaderCase{fmt.Sprintf("debian-binary %q", v), with(func(sc *debScenario) { sc.binary = v }), mustFail(fmt.Sprintf("format %q (major version is not 2, or no complete version line)", v))})
+		}
+		problems, undec, runs := runLoaderCases(p, cases)
+		if undec != "" {
+			f.undecided("deb.Load", pos, undec)
+		} else {
+			fillProblems(f, "deb.Load", pos, problems, fmt.Sprintf("%d scenarios / %d runs over map orders: missing members, 11 format strings, iterator errors", len(cases), runs))
 		}
 	}
-
-	c14Codecs(p, rp)
-
-	// C14-EXT
-	e := rp.Rule("C14-EXT", "ControlExt / DataExt are the member name without the selector's prefix", 2)
-	for _, fc := range []struct{ fn, field string }{{"loadDeb2Control", "ControlExt"}, {"loadDeb2Data", "DataExt"}} {
-		fn := p.Func("deb", fc.fn)
-		key := "deb.Deb." + fc.field
-		if fn == nil {
-			e.bad(key, "", "loader function not found", nil)
-			continue
-		}
-		found := false
-		for _, b := range fn.Blocks {
-			for _, ins := range b.Instrs {
-				st, ok := ins.(*ssa.Store)
-				if !ok || !strings.HasSuffix(tm.term(st.Addr), "."+fc.field) {
-					continue
-				}
-				found = true
-				t := tm.term(st.Val)
-				m := regexp.MustCompile(`^(.*)\((?:.*),"([a-z]+\.)"\)#0\.Name\[(\d+):(.*)\]$`).FindStringSubmatch(t)
-				if m == nil {
-					e.undecided(key, p.Pos(st.Pos()), "value has the shape "+t)
-					continue
-				}
-				low := m[3]
-				hiOK := m[4] == "" || strings.HasPrefix(m[4], "len(")
-				e.check(low == fmt.Sprint(len(m[2])) && hiOK, key, p.Pos(st.Pos()), fmt.Sprintf("Name[%s:] for the prefix %q", low, m[2]), fmt.Sprintf("the extension is Name[%s:%s] but the member was selected by the %d byte prefix %q", low, m[4], len(m[2]), m[2]))
-			}
-		}
-		if !found {
-			e.bad(key, p.Pos(fn.Pos()), "never assigned", nil)
-		}
-	}
-
-	// C14-CONTROL
-	c := rp.Rule("C14-CONTROL", "the tar entry named control is unmarshalled into Deb.Control; both errors returned", 3)
-	if fn := p.Func("deb", "loadDeb2Control"); fn != nil {
-		pos := p.Pos(fn.Pos())
-		okName := false
-		for _, g := range guardsOf(fn) {
-			if regexp.MustCompile(`^\("control" == path\.Clean\(\(\*archive/tar\.Reader\)\.Next\(.*\)#0\.Name\)\)$`).MatchString(g.Term) {
-				okName = true
-			}
-		}
-		c.check(okName, "deb.loadDeb2Control:entry", pos, "selects the entry whose path.Clean(name) == \"control\"", "the control file is not selected by its cleaned path \"control\"")
-		um := callsNamed(fn, repoModule+"/control.Unmarshal")
-		okUm := false
-		if len(um) == 1 {
-			tgt, rd := tm.term(um[0].Call.Args[0]), tm.term(um[0].Call.Args[1])
-			okUm = tgt == "&p1.Control" && strings.Contains(rd, "Tarfile(") && strings.HasSuffix(rd, "#0")
-		}
-		c.check(okUm, "deb.loadDeb2Control:unmarshal", pos, "control.Unmarshal(&deb.Control, <the tar stream>)", "the control paragraph is not unmarshalled into Deb.Control from the tar stream of the selected member")
-		// returns: unmarshal error if non-nil else close error
-		rets := successReturns(fn)
-		okRet := false
-		for _, r := range rets {
-			if strings.HasSuffix(tm.term(r.Results[0]), ".Close()") {
-				okRet = true
-			}
-		}
-		c.check(okRet, "deb.loadDeb2Control:close-error", pos, "the close error is returned when unmarshalling succeeded", "the error of closing the decompressor is dropped")
-	} else {
-		c.bad("deb.loadDeb2Control", "", "function not found", nil)
-	}
-
-	// C14-DATA: the data stream handed to the caller is untouched by the loader
+	// CODECS + EXT + DATA
+	c := rp.Rule("C14-CODECS", "each encoding is decoded by its own constructor", 7)
+	e := rp.Rule("C14-EXT", "ControlExt / DataExt are the member name without the prefix", 1)
 	dt := rp.Rule("C14-DATA", "the data tar stream is handed to the caller unread", 1)
-	if fn := p.Func("deb", "loadDeb2Data"); fn != nil {
-		var tarCall *ssa.Call
-		tarCalls := map[ssa.Value]bool{}
-		for _, c := range allCalls(fn) {
-			if strings.HasSuffix(calleeName(c.Common()), "deb.ArEntry).Tarfile") {
-				tarCall, _ = c.(*ssa.Call)
-				tarCalls[tarCall] = true
-			}
+	{
+		exts := map[string]string{"": "", ".gz": "gzip", ".bz2": "bzip2", ".xz": "xz", ".lzma": "lzma", ".zst": "zstd"}
+		var extList []string
+		for k := range exts {
+			extList = append(extList, k)
 		}
-		okData := tarCall != nil
-		detail := "the data loader does not open the data member with Tarfile()"
-		if len(tarCalls) > 1 {
-			okData = false
-			detail = "the data member is opened more than once: the first stream is consumed (a probe read) before the caller gets a second one"
-		} else if tarCall != nil {
-			for _, c := range allCalls(fn) {
-				n := calleeName(c.Common())
-				for _, a := range append([]ssa.Value{c.Common().Value}, c.Common().Args...) {
-					if a == nil {
-						continue
-					}
-					if ex, ok := a.(*ssa.Extract); ok && ex.Tuple == ssa.Value(tarCall) && ex.Index < 2 {
-						okData = false
-						detail = "the loader calls " + shortFn(n) + c.Common().Method.String() + " on the data stream before handing it to the caller: an empty or unusual data.tar is rejected, and the caller no longer reads from the start"
-					}
+		sort.Strings(extList)
+		var extProblems, dataProblems []string
+		for _, ce := range extList {
+			var problems []string
+			undec := ""
+			for _, de := range extList {
+				sc := with(func(sc *debScenario) { sc.members = []string{"debian-binary", "control.tar" + ce, "data.tar" + de} })
+				outs, why := runLoadDeb(p, sc)
+				if why != "" {
+					undec = why
+					break
 				}
-			}
-			// both results must be stored in the Deb
-			stores := map[string]bool{}
-			for _, b := range fn.Blocks {
-				for _, ins := range b.Instrs {
-					if st, ok := ins.(*ssa.Store); ok {
-						if ex, ok := st.Val.(*ssa.Extract); ok && ex.Tuple == ssa.Value(tarCall) {
-							stores[tm.term(st.Addr)] = true
-						}
-					}
+				o, same := agree(outs)
+				if !same {
+					problems = append(problems, "outcome depends on map order")
+					continue
 				}
-			}
-			if !stores["&p1.Data"] || !stores["&p1.Closer"] {
-				okData = false
-				detail = fmt.Sprintf("tar reader and closer are not both stored in Deb.Data / Deb.Closer (stores: %v)", keysOf(stores))
-			}
-		}
-		dt.check(okData, "deb.loadDeb2Data", p.Pos(fn.Pos()), "Tarfile()'s reader and closer go straight into Deb.Data and Deb.Closer", detail)
-	} else {
-		dt.bad("deb.loadDeb2Data", "", "function not found", nil)
-	}
-
-	d := rp.Rule("C14-DET", "no result depends on map iteration order", 1)
-	detRule(p, d, "deb")
-	selectorRule(p, d, false)
-	ix := rp.Rule("C14-INDEX", "member index complete, repeated names rejected", 2)
-	dupRule(p, ix)
-}
-
-func c14Codecs(p *Prog, rp *Report) {
-	r := rp.Rule("C14-CODECS", "extension table and decompressor wiring", 9)
-	want := map[string]string{
-		".gz":   "compress/gzip.NewReader",
-		".bz2":  "compress/bzip2.NewReader",
-		".xz":   "github.com/xi2/xz.NewReader",
-		".lzma": "github.com/kjk/lzma.NewReader",
-		".zst":  "github.com/klauspost/compress/zstd.NewReader",
-	}
-	initFn := p.SPkg["deb"].Func("init")
-	rows := map[string]*ssa.Function{}
-	if initFn != nil {
-		for _, b := range initFn.Blocks {
-			for _, ins := range b.Instrs {
-				if mu, ok := ins.(*ssa.MapUpdate); ok {
-					if k, ok := constString(mu.Key); ok {
-						v := mu.Value
-						if ct, ok := v.(*ssa.ChangeType); ok {
-							v = ct.X
-						}
-						if f, ok := v.(*ssa.Function); ok {
-							rows[k] = f
-						} else if mc, ok := v.(*ssa.MakeClosure); ok {
-							rows[k] = mc.Fn.(*ssa.Function)
-						}
+				if !o.errNil {
+					problems = append(problems, fmt.Sprintf("control.tar%s + data.tar%s is rejected", ce, de))
+					continue
+				}
+				wrap := func(ctor, member string, k int) string {
+					d := fmt.Sprintf("data(%s#%d)", member, k)
+					if ctor == "" {
+						return "tar(" + d + ")"
+					}
+					return "tar(" + ctor + "(" + d + "))"
+				}
+				if want := wrap(exts[ce], "control.tar"+ce, 1); o.unmarshaled != want {
+					problems = append(problems, fmt.Sprintf("control.tar%s is read through %s, want %s", ce, o.unmarshaled, want))
+				}
+				if want := wrap(exts[de], "data.tar"+de, 2); o.dataProv != want {
+					problems = append(problems, fmt.Sprintf("data.tar%s is exposed as %s, want %s", de, o.dataProv, want))
+				}
+				for _, ef := range o.effects {
+					if strings.HasPrefix(ef, "ctor:xz(") && !strings.HasSuffix(ef, ",0)") {
+						problems = append(problems, "xz is opened with a dictionary limit other than the default: "+ef)
+					}
+					if strings.HasPrefix(ef, "tarnext:tar(") && strings.Contains(ef, "data.tar") {
+						dataProblems = append(dataProblems, "the loader reads from the data tar stream before handing it to the caller ("+ef+")")
 					}
 				}
-			}
-		}
-	}
-	var exts []string
-	for k := range rows {
-		exts = append(exts, k)
-	}
-	sort.Strings(exts)
-	for ext := range want {
-		if rows[ext] == nil {
-			r.bad("deb.codec["+ext+"]", "", "no row for this extension in the decompressor table", nil)
-		}
-	}
-	for _, ext := range exts {
-		fn := rows[ext]
-		ctor, known := want[ext]
-		key := "deb.codec[" + ext + "]"
-		if !known {
-			r.bad(key, p.Pos(fn.Pos()), "deb(5) knows no such compression extension", nil)
-			continue
-		}
-		// the function must call exactly the expected constructor with its parameter
-		okCtor := false
-		var others []string
-		for _, c := range allCalls(fn) {
-			n := calleeName(c.Common())
-			if strings.HasSuffix(n, ".NewReader") {
-				if n == ctor && len(c.Common().Args) >= 1 && c.Common().Args[0] == ssa.Value(fn.Params[0]) {
-					okCtor = true
-				} else {
-					others = append(others, n)
+				if o.controlExt != "tar"+ce || o.dataExt != "tar"+de {
+					extProblems = append(extProblems, fmt.Sprintf("control.tar%s / data.tar%s give ControlExt %q, DataExt %q", ce, de, o.controlExt, o.dataExt))
 				}
 			}
-		}
-		// errors of the constructor must be returned
-		okErr := true
-		for _, s := range errDiscipline(fn, func(n string, c *ssa.Call) bool { return strings.HasSuffix(n, ".NewReader") }) {
-			if s.Status != "returned" && s.Status != "checked" {
-				okErr = false
-			}
-		}
-		if ext == ".xz" {
-			// the dictionary limit must stay the library default (0): a lower limit rejects packages built with xz -7..-9
-			for _, c := range allCalls(fn) {
-				if calleeName(c.Common()) == ctor && len(c.Common().Args) >= 2 {
-					if n, isC := constInt(c.Common().Args[1]); !isC || n != 0 {
-						okCtor = false
-						others = append(others, fmt.Sprintf("xz.NewReader with dictionary limit %v instead of the default 0", c.Common().Args[1]))
-					}
+			// constructor failure
+			if exts[ce] != "" && exts[ce] != "bzip2" && exts[ce] != "lzma" && undec == "" {
+				sc := with(func(sc *debScenario) { sc.members = []string{"debian-binary", "control.tar" + ce, "data.tar"}; sc.ctorErr = exts[ce] })
+				outs, why := runLoadDeb(p, sc)
+				if why != "" {
+					undec = why
+				} else if o, _ := agree(outs); o.errNil {
+					problems = append(problems, "an error of the "+exts[ce]+" constructor is ignored")
 				}
 			}
+			key := "deb.codec[" + ce + "]"
+			if ce == "" {
+				key = "deb.codec[none]"
+			}
+			if undec != "" {
+				c.undecided(key, pos, undec)
+			} else {
+				fillProblems(c, key, pos, problems, "control and data in this encoding x 6 encodings of the other member: stream = tar(constructor(member data))")
+			}
 		}
-		r.check(okCtor && len(others) == 0 && okErr, key, p.Pos(fn.Pos()), "wired to "+ctor+"(reader); its error is returned", fmt.Sprintf("expected %s(reader) with its error returned; constructor calls found: ok=%v others=%v errors-propagated=%v", ctor, okCtor, others, okErr))
+		fillProblems(e, "deb.Deb.ControlExt/DataExt", pos, extProblems, "36 encoding combinations")
+		fillProblems(dt, "deb.Deb.Data", pos, dataProblems, "no read on the data stream during Load in 36 combinations")
 	}
-	// DecompressorFor: table hit -> row, miss -> identity
-	if fn := p.Func("deb", "DecompressorFor"); fn != nil {
-		tm := newTermer()
-		var rets []string
-		okHit, okMiss := false, false
-		for _, ret := range returnsReachable(fn.Blocks[0]) {
-			t := tm.term(ret.Results[0])
-			rets = append(rets, t)
-			if t == "*global:deb.knownCompressionAlgorithms[p0]#0" {
-				okHit = true
-				continue
-			}
-			var idf *ssa.Function
-			switch v := ret.Results[0].(type) {
-			case *ssa.Function:
-				idf = v
-			case *ssa.MakeClosure:
-				idf = v.Fn.(*ssa.Function)
-			case *ssa.ChangeType:
-				if f, ok := v.X.(*ssa.Function); ok {
-					idf = f
-				}
-			}
-			if idf != nil {
-				it := newTermer()
-				for _, r2 := range returnsReachable(idf.Blocks[0]) {
-					if it.term(r2.Results[0]) == "io.NopCloser(p0)" && isNilConst(r2.Results[1]) {
-						okMiss = true
-					} else {
-						okMiss = false
-					}
-				}
-			}
-		}
-		r.check(okHit && okMiss && len(rets) == 2, "deb.DecompressorFor", p.Pos(fn.Pos()), "known extension -> table row; anything else -> identity (uncompressed member)", fmt.Sprintf("expected the table row on a hit and the identity reader otherwise; returns are %v", rets))
-	} else {
-		r.bad("deb.DecompressorFor", "", "function not found", nil)
-	}
-	// Tarfile selects by filepath.Ext(name) and feeds the member data
-	if fn := p.Method("deb", "ArEntry", "Tarfile"); fn != nil {
-		tm := newTermer()
-		ok := false
-		for _, c := range allCalls(fn) {
-			if tm.term(c.(ssa.Value)) == "deb.DecompressorFor(path/filepath.Ext(p0.Name))(p0.Data)" {
-				ok = true
-			}
-		}
-		okTar := false
-		for _, ret := range successReturns(fn) {
-			if tm.term(ret.Results[0]) == "archive/tar.NewReader(deb.DecompressorFor(path/filepath.Ext(p0.Name))(p0.Data)#0)" && tm.term(ret.Results[1]) == "deb.DecompressorFor(path/filepath.Ext(p0.Name))(p0.Data)#0" {
-				okTar = true
-			}
-		}
-		r.check(ok && okTar, "deb.ArEntry.Tarfile", p.Pos(fn.Pos()), "decompressor chosen by filepath.Ext(Name), applied to the member's data, wrapped in tar.NewReader; the decompressor is the closer", "Tarfile does not return tar.NewReader(DecompressorFor(filepath.Ext(Name))(Data)) with that decompressor as closer")
-	} else {
-		r.bad("deb.ArEntry.Tarfile", "", "method not found", nil)
-	}
-	// IsTarfile table (exact interpretation with filepath models)
+	// IsTarfile table
 	if fn := p.Method("deb", "ArEntry", "IsTarfile"); fn != nil {
 		entT := p.Named("deb", "ArEntry")
-		bad := ""
+		var problems []string
 		for name, want := range map[string]bool{"control.tar": true, "control.tar.gz": true, "data.tar.xz": true, "data.tar.zst": true, "data.tar.bz2": true, "data.tar.lzma": true, "debian-binary": false, "_gpgorigin": false, "control.gz": false, "tar": false, "x.tar.gz.sig": false} {
 			m := NewMachine(p, nil)
 			installStringModels(m)
-			st := &State{Heap: map[int]*HObj{}, Notes: map[string]bool{}}
+			st := initState(m, "deb")
 			id := st.alloc(entT, mkStruct(entT, map[string]Val{"Name": name}))
 			st.push(fn, []Val{Ptr{Obj: id}}, nil)
 			out := m.Run(st)
 			if len(out) != 1 || out[0].Status != stRet {
-				bad = "undecided: " + retDesc(out)
+				problems = append(problems, "undecided: "+retDesc(out))
 				break
 			}
 			if out[0].Ret != want {
-				bad = fmt.Sprintf("IsTarfile(%q) = %v, want %v", name, out[0].Ret, want)
+				problems = append(problems, fmt.Sprintf("IsTarfile(%q) = %v, want %v", name, out[0].Ret, want))
 			}
 		}
-		if strings.HasPrefix(bad, "undecided") {
-			r.undecided("deb.ArEntry.IsTarfile", p.Pos(fn.Pos()), bad)
+		fillProblems(c, "deb.ArEntry.IsTarfile", p.Pos(fn.Pos()), problems, "11 member names: true exactly for NAME.tar and NAME.tar.EXT")
+	}
+	// CONTROL
+	ct := rp.Rule("C14-CONTROL", "the control file is found in the control tarball and unmarshalled into Deb.Control", 1)
+	{
+		cases := []loaderCase{
+			{"./control last", std, func(o debOutcome) string {
+				if !o.errNil {
+					return "rejected"
+				}
+				if o.unmarshalTarget == "" {
+					return "control.Unmarshal is not called"
+				}
+				return ""
+			}},
+			{"control without ./", with(func(sc *debScenario) { sc.tarEntries = []string{"control"} }), okLoad},
+			{"control first", with(func(sc *debScenario) { sc.tarEntries = []string{"./control", "./postinst"} }), okLoad},
+			{"/control//", with(func(sc *debScenario) { sc.tarEntries = []string{"./preinst", ".//control"} }), okLoad},
+			{"no control entry", with(func(sc *debScenario) { sc.tarEntries = []string{"./", "./md5sums", "./controlx", "./x/control"} }), mustFail("a control tarball without a control file")},
+			{"empty control tarball", with(func(sc *debScenario) { sc.tarEntries = nil }), mustFail("an empty control tarball")},
+			{"unmarshal error", with(func(sc *debScenario) { sc.unmarshalErr = true }), mustFail("a control file that does not unmarshal")},
+			{"close error", with(func(sc *debScenario) { sc.closeErr = true }), mustFail("a decompressor that fails on Close")},
+		}
+		problems, undec, runs := runLoaderCases(p, cases)
+		// the target of Unmarshal must be the Deb's Control field
+		outs, why := runLoadDeb(p, std)
+		if why == "" && len(outs) > 0 {
+			debT := p.Named("deb", "Deb")
+			want := fmt.Sprint(fieldIndex(structOf(debT), "Control"))
+			if outs[0].unmarshalTarget != want {
+				problems = append(problems, fmt.Sprintf("the control paragraph is unmarshalled into field path %q of the Deb, want the Control field (%s)", outs[0].unmarshalTarget, want))
+			}
+		}
+		if undec != "" {
+			ct.undecided("deb.Load", pos, undec)
 		} else {
-			r.check(bad == "", "deb.ArEntry.IsTarfile", p.Pos(fn.Pos()), "11 member names: true exactly for NAME.tar and NAME.tar.EXT", bad)
+			fillProblems(ct, "deb.Load", pos, problems, fmt.Sprintf("%d scenarios / %d runs: entry position and spelling, missing entry, unmarshal and close errors", len(cases), runs))
 		}
 	}
-	// only SetXZMaxDict may write the table, and only the .xz row
-	for _, w := range globalWrites(p, "deb") {
-		if w.G != "knownCompressionAlgorithms" {
-			continue
+	// DET + INDEX
+	d := rp.Rule("C14-DET", "no outcome depends on map iteration order", 1)
+	ix := rp.Rule("C14-INDEX", "member index complete, repeated names rejected", 1)
+	{
+		cases := []loaderCase{
+			{"decoy control.tar next to control.tar.gz", with(func(sc *debScenario) { sc.members = append(sc.members, "control.tar") }), mustFail("a package with two control members")},
+			{"decoy data.tar.gz next to data.tar.xz", with(func(sc *debScenario) { sc.members = append(sc.members, "data.tar.gz") }), mustFail("a package with two data members")},
+			{"control.tar.gz and control.sig", with(func(sc *debScenario) { sc.members = append(sc.members, "control.sig") }), mustFail("a package with two control.* members")},
+			{"five members", with(func(sc *debScenario) { sc.members = append(sc.members, "_gpgorigin", "_gpgmaint") }), okLoad},
 		}
+		problems, undec, runs := runLoaderCases(p, cases)
+		if undec != "" {
+			d.undecided("deb.Load", pos, undec)
+		} else {
+			fillProblems(d, "deb.Load", pos, problems, fmt.Sprintf("%d scenarios / %d runs: every iteration order of the member map gives the same outcome; ambiguous members are an error", len(cases), runs))
+		}
+		cases2 := []loaderCase{
+			{"index", with(func(sc *debScenario) { sc.members = append(sc.members, "_gpgorigin") }), func(o debOutcome) string {
+				if strings.Join(o.indexKeys, ",") != "_gpgorigin,control.tar.gz,data.tar.xz,debian-binary" {
+					return fmt.Sprintf("ArContent lists %v", o.indexKeys)
+				}
+				return ""
+			}},
+			{"repeated control.tar.gz", with(func(sc *debScenario) { sc.members = append(sc.members, "control.tar.gz") }), mustFail("a package that repeats a member name")},
+			{"repeated debian-binary", with(func(sc *debScenario) { sc.members = append([]string{"debian-binary"}, sc.members...) }), mustFail("a package that repeats debian-binary")},
+		}
+		problems, undec, _ = runLoaderCases(p, cases2)
+		if undec != "" {
+			ix.undecided("deb.Load", pos, undec)
+		} else {
+			fillProblems(ix, "deb.Load", pos, problems, "ArContent = the members; repeated names rejected")
+		}
+	}
+	// the decompressor table may only be re-parameterised for xz
+	gw := rp.Rule("C14-TABLEWRITE", "the decompressor table is only changed to re-parameterise xz", 1)
+	n := 0
+	for _, w := range globalWrites(p, "deb") {
+		n++
 		okW := false
 		for _, b := range w.Fn.Blocks {
 			for _, ins := range b.Instrs {
 				if mu, ok := ins.(*ssa.MapUpdate); ok {
 					if k, ok := constString(mu.Key); ok && k == ".xz" {
 						if mc, ok := stripIface(mu.Value).(*ssa.MakeClosure); ok {
-							for _, c := range allCalls(mc.Fn.(*ssa.Function)) {
-								if calleeName(c.Common()) == want[".xz"] {
+							for _, cl := range allCalls(mc.Fn.(*ssa.Function)) {
+								if calleeName(cl.Common()) == "github.com/xi2/xz.NewReader" {
 									okW = true
 								}
 							}
@@ -539,64 +339,62 @@ func c14Codecs(p *Prog, rp *Report) {
 				}
 			}
 		}
-		r.check(okW, "deb.codec-table:writer("+fname(w.Fn)+")", p.Pos(w.Pos), "only replaces the .xz row by another xz reader", "the decompressor table is modified at run time other than to re-parameterise the .xz row")
+		gw.check(okW, "deb:"+w.G+":writer("+fname(w.Fn)+")", p.Pos(w.Pos), "only replaces the .xz row by another xz reader", "package-level state of package deb is modified at run time other than to re-parameterise the .xz decompressor")
+	}
+	if n == 0 {
+		gw.ok("deb:(no writer)", "", "no function writes package-level state")
 	}
 }
 
 // ---- C15 ------------------------------------------------------------------------------
 
 func checkC15(p *Prog, rp *Report) {
-	rp.Explanation = "C15-OFFSET: (symbolic-header interpretation of Ar.Next) every returned member advances the offset by 60+size+size%2 with size >= 0 established on the path, so an archive of n bytes yields at most n/60 members; C15-HDRMAGIC: a member is returned only from a header ending 0x60 0x0A (all four byte combinations); C15-SHORT: failed/short reads yield no member and leave the offset alone; C15-LOOP: the loader's loop leaves only on io.EOF or an error of Next; C15-DET: no range over a map influences a result (the control/data selector uses the unique-match idiom, the header parser walks a slice); C15-NOFATAL: no panic/log.Fatal/os.Exit reachable from LoadAr, Next, Load in the repository; C15-BOUNDS: constant indexes of the header parser are below the checked header length, extension slicing is within the matched prefix."
+	rp.Explanation = "C15-OFFSET: (symbolic-header interpretation of Ar.Next) every returned member advances the offset by 60+size+size%2 with size >= 0 established on the path, so an archive of n bytes yields at most n/60 members; C15-HDRMAGIC: a member is returned only from a header ending 0x60 0x0A (all four byte combinations); C15-SHORT: failed/short reads yield no member and leave the offset alone; C15-LOOP: (scripted-archive interpretation of the loader) the member loop ends on io.EOF and propagates any other error of Next; C15-DET: with decoy and repeated members every iteration order of the member map gives the same outcome; the header parser walks no map; C15-NOFATAL: no panic/log.Fatal/os.Exit reachable from LoadAr, Next, Load in the repository; C15-BOUNDS: constant indexes of the header parser are below the checked header length, name slicing stays within the matched prefix."
 	rp.NotDecided = "that a member's reader delivers exactly size bytes when the archive is truncated (needs the length of the caller's io.ReaderAt, a run-time quantity); behaviour of archive/tar and the decompressors on hostile streams; absence of panics inside the standard library."
 	rp.Trusted = []string{"go/types, go/ssa", "io.ReaderAt contract (n < len(p) implies a non-nil error)", "io.SectionReader"}
 	arRules(p, rp, false)
-
-	lp := rp.Rule("C15-LOOP", "the loader's member loop exits only on io.EOF or an error of Next", 1)
-	if fn := p.Func("deb", "loadDeb"); fn != nil {
-		var next *ssa.Call
-		for _, c := range callsNamed(fn, "(*"+repoModule+"/deb.Ar).Next") {
-			next = c
-		}
-		if next == nil {
-			lp.bad("deb.loadDeb", p.Pos(fn.Pos()), "does not iterate with Ar.Next", nil)
-		} else {
-			hdr := next.Block()
-			inLoop := map[*ssa.BasicBlock]bool{}
-			for _, b := range fn.Blocks {
-				if hdr.Dominates(b) && reachableFrom(b)[hdr] {
-					inLoop[b] = true
-				}
-			}
-			ok := len(inLoop) > 0 && reachableFrom(hdr.Succs[0])[hdr] || len(hdr.Succs) > 1 && reachableFrom(hdr.Succs[1])[hdr]
-			detail := "the Next call is not inside a loop"
-			tm := newTermer()
-			for b := range inLoop {
-				for _, s := range b.Succs {
-					if inLoop[s] {
-						continue
-					}
-					ifi, isIf := b.Instrs[len(b.Instrs)-1].(*ssa.If)
-					if !isIf {
-						// returns inside the loop are exits too: must be error returns
-						continue
-					}
-					t := tm.term(ifi.Cond)
-					if !strings.Contains(t, "Next(p0)#1") && !strings.Contains(t, "["+"(*deb.Ar).Next(p0)#0.Name]#1") {
-						ok, detail = false, "the loop is left on the condition "+t+", which is not a test of Next's error"
-					}
-				}
-			}
-			lp.check(ok, "deb.loadDeb", p.Pos(next.Pos()), "loop exits: io.EOF (end of archive), an error of Next, a repeated member name", detail)
-		}
-	} else {
-		lp.bad("deb.loadDeb", "", "function not found", nil)
+	pos := ""
+	if fn := p.Func("deb", "Load"); fn != nil {
+		pos = p.Pos(fn.Pos())
 	}
-
+	std := debScenario{members: stdMembers, binary: "2.0\n", tarEntries: []string{"./control"}}
+	lp := rp.Rule("C15-LOOP", "the loader's member loop ends on io.EOF and propagates other errors", 1)
+	{
+		bad := std
+		bad.nextErr = true
+		cases := []loaderCase{
+			{"iteration ends with io.EOF", std, okLoad},
+			{"iteration ends with an error", bad, mustFail("an archive whose iteration fails after three good members")},
+		}
+		problems, undec, _ := runLoaderCases(p, cases)
+		if undec != "" {
+			lp.undecided("deb.Load", pos, undec)
+		} else {
+			fillProblems(lp, "deb.Load", pos, problems, "io.EOF ends the loop, any other error of Next is returned")
+		}
+	}
 	d := rp.Rule("C15-DET", "no result depends on map iteration order", 2)
-	detRule(p, d, "deb")
-	selectorRule(p, d, false)
-	dupRule(p, d)
-
+	{
+		mk := func(extra ...string) debScenario {
+			sc := std
+			sc.members = append(append([]string(nil), stdMembers...), extra...)
+			return sc
+		}
+		cases := []loaderCase{
+			{"decoy control member", mk("control.tar"), mustFail("a package with two control members")},
+			{"decoy data member", mk("data.tar"), mustFail("a package with two data members")},
+			{"control.tar.gz plus control.sig", mk("control.sig"), mustFail("a package with two control.* members")},
+			{"repeated member", mk("data.tar.xz"), mustFail("a package that repeats a member name")},
+			{"unrelated extra members", mk("_gpgorigin", "zzz"), okLoad},
+		}
+		problems, undec, runs := runLoaderCases(p, cases)
+		if undec != "" {
+			d.undecided("deb.Load", pos, undec)
+		} else {
+			fillProblems(d, "deb.Load", pos, problems, fmt.Sprintf("%d scenarios / %d runs: identical outcome for every iteration order", len(cases), runs))
+		}
+		detRule(p, d, "deb")
+	}
 	nf := rp.Rule("C15-NOFATAL", "no panic / log.Fatal / os.Exit reachable from the readers inside the repository", 1)
 	roots := []*ssa.Function{p.Func("deb", "LoadAr"), p.Method("deb", "Ar", "Next"), p.Func("deb", "Load")}
 	nroots := 0
@@ -618,8 +416,7 @@ func checkC15(p *Prog, rp *Report) {
 		}
 		nf.check(nroots == 3, "deb.LoadAr/Next/Load", "", fmt.Sprintf("%d repository functions reachable, none panics or exits", len(reach)), "entry points not found")
 	}
-
-	bd := rp.Rule("C15-BOUNDS", "constant indexes and slices in package deb are within checked lengths", 3)
+	bd := rp.Rule("C15-BOUNDS", "constant indexes and slices in package deb are within checked lengths", 2)
 	c15Bounds(p, bd)
 }
 
@@ -746,112 +543,143 @@ func c15Bounds(p *Prog, r *Rule) {
 // ---- C16 ------------------------------------------------------------------------------
 
 func checkC16(p *Prog, rp *Report) {
-	rp.Explanation = "C16-ROLE: the signature member is looked up by the exact name \"_gpg\"+role, its absence and the absence of debian-binary are errors. C16-STREAM: the signed data handed to openpgp.CheckDetachedSignature is io.MultiReader of exactly debian-binary, control, data (in that order), each rewound with Seek(0,0) before; the signature is the role member's data; the keyring is the caller's; the library's results are returned unchanged. C16-SAME: the verifier obtains control/data through the very selector function the loader uses; that selector is order independent and fails when more than one member matches; the loader rejects repeated member names."
+	rp.Explanation = "CheckDebsig is interpreted abstractly on a Deb whose member index holds debian-binary, control.tar.gz, data.tar.xz and _gpgorigin (plus decoys), with Seek, io.MultiReader and openpgp.CheckDetachedSignature replaced by recording oracles, over every iteration order of the member map. C16-ROLE: only the exact member \"_gpg\"+role is used as signature: an absent role, a prefix of a role and the empty role fail; a missing debian-binary fails. C16-STREAM: the signed data is MultiReader(debian-binary, control, data) in that order, each rewound with Seek(0,0) before, the signature is the role member's data, the keyring is the caller's, and the library's entity and error are returned unchanged. C16-SAME: with a decoy control.* or data.* member verification fails in every iteration order, and the loader (same scenarios) fails too, so the verified members are the loaded members; repeated names are rejected by the loader."
 	rp.NotDecided = "the OpenPGP library; the bytes of the members (io.SectionReader); that the data member handed to the caller as Deb.Data is re-read from the start by the verifier."
 	rp.Trusted = []string{"go/types, go/ssa", "golang.org/x/crypto/openpgp.CheckDetachedSignature", "io.MultiReader, io.SectionReader.Seek"}
 	fn := p.Method("deb", "Deb", "CheckDebsig")
-	role := rp.Rule("C16-ROLE", "signature member = \"_gpg\"+role by exact lookup; missing members are errors", 3)
-	stream := rp.Rule("C16-STREAM", "signed stream = debian-binary, control, data, each rewound; results returned unchanged", 4)
+	role := rp.Rule("C16-ROLE", "signature member = \"_gpg\"+role by exact lookup; missing members are errors", 1)
+	stream := rp.Rule("C16-STREAM", "signed stream = debian-binary, control, data, each rewound; results returned unchanged", 1)
+	same := rp.Rule("C16-SAME", "decoy members make verification and loading fail in every iteration order", 1)
 	if fn == nil {
 		role.bad("deb.Deb.CheckDebsig", "", "method not found", nil)
 		return
 	}
 	pos := p.Pos(fn.Pos())
-	tm := newTermer()
-	gs := guardsOf(fn)
-	okSig, okBin := false, false
-	for _, g := range gs {
-		if g.Term == `p0.ArContent[("_gpg" + p2)]#1` && rejectsOn(fn, g, 1) && dominatesAllSuccess(fn, g) {
-			okSig = true
+	members := []string{"debian-binary", "control.tar.gz", "data.tar.xz", "_gpgorigin"}
+	var roleP, streamP, sameP []string
+	undec := ""
+	run := func(ms []string, r string, ok bool) []sigOutcome {
+		outs, why := runCheckDebsig(p, ms, r, ok)
+		if why != "" {
+			undec = why
 		}
-		if g.Term == `p0.ArContent["debian-binary"]#1` && rejectsOn(fn, g, 1) && dominatesAllSuccess(fn, g) {
-			okBin = true
+		return outs
+	}
+	// roles
+	for _, r := range []string{"origin", "maint", "archive", "", "o", "orig", "origin2", "ORIGIN"} {
+		outs := run(members, r, true)
+		if undec != "" {
+			break
+		}
+		for _, o := range outs {
+			if r == "origin" {
+				if !o.errNil || o.signer != "the-signing-entity" {
+					roleP = append(roleP, "a present role with a good signature does not verify")
+				}
+			} else if o.errNil || len(o.verified) > 0 {
+				roleP = append(roleP, fmt.Sprintf("role %q is not present (only _gpgorigin is) but a signature is verified for it: %v", r, o.verified))
+			}
 		}
 	}
-	role.check(okSig, "deb.Deb.CheckDebsig:signature-member", pos, "exact lookup of \"_gpg\"+role in the member index; absent -> error", "the signature member is not found by the exact name \"_gpg\"+role (or its absence is not an error): a different role's signature could be accepted")
-	role.check(okBin, "deb.Deb.CheckDebsig:debian-binary", pos, "debian-binary looked up; absent -> error", "a missing debian-binary member is not an error")
-	for _, s := range errDiscipline(fn, func(n string, c *ssa.Call) bool { callee := c.Call.StaticCallee(); return callee != nil && inRepo(callee) }) {
-		role.check(s.Status == "checked" || s.Status == "returned" || s.Status == "unclear" && false, "deb.Deb.CheckDebsig:err("+strings.TrimPrefix(s.Callee, "deb.")+normT(tm.term(s.Call.Call.Args[len(s.Call.Call.Args)-1]))+")", p.Pos(s.Call.Pos()), "selector error "+s.Status, "the selector's error is "+s.Status)
+	if undec == "" {
+		for _, o := range run([]string{"control.tar.gz", "data.tar.xz", "_gpgorigin"}, "origin", true) {
+			if o.errNil {
+				roleP = append(roleP, "a package without debian-binary verifies")
+			}
+		}
 	}
-	// the verification call
-	calls := callsNamed(fn, "golang.org/x/crypto/openpgp.CheckDetachedSignature", "golang.org/x/crypto/openpgp.CheckArmoredDetachedSignature")
-	if len(calls) != 1 {
-		stream.bad("deb.Deb.CheckDebsig:verify", pos, fmt.Sprintf("%d calls of openpgp.CheckDetachedSignature, expected one", len(calls)), nil)
-		return
-	}
-	vc := calls[0]
-	stream.check(tm.term(vc.Call.Args[0]) == "p1", "deb.Deb.CheckDebsig:keyring", p.Pos(vc.Pos()), "the caller's keyring is used", "the keyring argument is "+tm.term(vc.Call.Args[0]))
-	stream.check(tm.term(vc.Call.Args[2]) == `p0.ArContent[("_gpg" + p2)]#0.Data`, "deb.Deb.CheckDebsig:signature", p.Pos(vc.Pos()), "signature = data of the role's member", "the signature argument is "+tm.term(vc.Call.Args[2]))
-	// signed data: MultiReader over an array whose stores we read in order
-	var elems []string
-	if mr, ok := stripIface(vc.Call.Args[1]).(*ssa.Call); ok && calleeName(mr.Common()) == "io.MultiReader" {
-		if sl, ok := mr.Call.Args[0].(*ssa.Slice); ok {
-			if al, ok := sl.X.(*ssa.Alloc); ok {
-				idx := map[int64]string{}
-				for _, ref := range *al.Referrers() {
-					if ia, ok := ref.(*ssa.IndexAddr); ok {
-						n, _ := constInt(ia.Index)
-						for _, r2 := range *ia.Referrers() {
-							if st, ok := r2.(*ssa.Store); ok {
-								idx[n] = tm.term(st.Val)
-							}
+	// stream
+	if undec == "" {
+		for _, ok := range []bool{true, false} {
+			for _, o := range run(members, "origin", ok) {
+				if o.errNil != ok {
+					streamP = append(streamP, fmt.Sprintf("the library's verdict (ok=%v) is not what CheckDebsig returns (error nil=%v)", ok, o.errNil))
+				}
+				if ok && o.signer != "the-signing-entity" {
+					streamP = append(streamP, "the entity returned by the library is not what CheckDebsig returns")
+				}
+				if !ok && o.signer != "" {
+					streamP = append(streamP, "an entity is returned although verification failed")
+				}
+				if len(o.verified) != 1 {
+					streamP = append(streamP, fmt.Sprintf("%d verification calls", len(o.verified)))
+					continue
+				}
+				parts := strings.Split(o.verified[0], "|")
+				want := "multi(data(debian-binary#0)+data(control.tar.gz#1)+data(data.tar.xz#2))"
+				if parts[0] != "the-keyring" {
+					streamP = append(streamP, "the signature is checked against "+parts[0]+", not the caller's keyring")
+				}
+				if parts[1] != want {
+					streamP = append(streamP, "the signed data is "+parts[1]+", want "+want)
+				}
+				if parts[2] != "data(_gpgorigin#3)" {
+					streamP = append(streamP, "the signature is read from "+parts[2]+", want the _gpgorigin member")
+				}
+				for _, mname := range []string{"data(debian-binary#0)", "data(control.tar.gz#1)", "data(data.tar.xz#2)"} {
+					rewound := false
+					for _, e := range o.effects {
+						if e == "seek:"+mname+":0:0" {
+							rewound = true
+						}
+						if strings.HasPrefix(e, "verify:") {
+							break
 						}
 					}
-				}
-				for i := int64(0); i < int64(len(idx)); i++ {
-					elems = append(elems, idx[i])
-				}
-			}
-		}
-		wantElems := []string{`p0.ArContent["debian-binary"]#0.Data`, `deb.findMember(p0.ArContent,"control.")#0.Data`, `deb.findMember(p0.ArContent,"data.")#0.Data`}
-		// tolerate a renamed selector: normalise the callee name
-		norm := func(s string) string { return regexp.MustCompile(`deb\.\w+\(p0\.ArContent,`).ReplaceAllString(s, "SEL(p0.ArContent,") }
-		same := len(elems) == 3
-		for i := 0; same && i < 3; i++ {
-			if norm(elems[i]) != norm(wantElems[i]) {
-				same = false
-			}
-		}
-		stream.check(same, "deb.Deb.CheckDebsig:signed-data", p.Pos(mr.Pos()), "MultiReader(debian-binary, control member, data member)", fmt.Sprintf("the signed stream is %v, want debian-binary, control, data", elems))
-		// each element rewound before the MultiReader call
-		rew := map[string]bool{}
-		for _, c := range allCalls(fn) {
-			if calleeName(c.Common()) == "(*io.SectionReader).Seek" {
-				call := c.(*ssa.Call)
-				o, _ := constInt(call.Call.Args[1])
-				w, _ := constInt(call.Call.Args[2])
-				if o == 0 && w == 0 && (call.Block().Dominates(mr.Block())) && (call.Block() != mr.Block() || instrIndex(call) < instrIndex(mr)) {
-					rew[tm.term(call.Call.Args[0])] = true
+					if !rewound {
+						streamP = append(streamP, mname+" is not rewound (Seek(0,0)) before verification: the loader has already read from it")
+					}
 				}
 			}
-		}
-		allRew := len(elems) > 0
-		missing := ""
-		for _, e := range elems {
-			if !rew[e] {
-				allRew = false
-				missing = e
-			}
-		}
-		stream.check(allRew, "deb.Deb.CheckDebsig:rewind", p.Pos(mr.Pos()), "every signed member is rewound (Seek(0,0)) before it is read", "not rewound before verification: "+missing+" (the loader has already read from these members)")
-	} else {
-		stream.bad("deb.Deb.CheckDebsig:signed-data", p.Pos(vc.Pos()), "the signed data is not an io.MultiReader: "+tm.term(vc.Call.Args[1]), nil)
-	}
-	// results returned unchanged
-	okRet := false
-	for _, ret := range successReturns(fn) {
-		if tm.term(ret.Results[0]) == tm.term(vc)+"#0" && tm.term(ret.Results[1]) == tm.term(vc)+"#1" {
-			okRet = true
-		} else if ret.Block() == vc.Block() || vc.Block().Dominates(ret.Block()) {
-			okRet = false
 		}
 	}
-	stream.check(okRet, "deb.Deb.CheckDebsig:result", pos, "signer and error of the library call are returned unchanged", "the verification result is not returned as is")
-
-	same := rp.Rule("C16-SAME", "verifier and loader use the same deterministic member selector; repeated names rejected", 5)
-	selectorRule(p, same, true)
-	dupRule(p, same)
-	detRule(p, same, "deb")
+	// same members as the loader
+	if undec == "" {
+		for _, decoy := range []string{"control.tar", "data.tar.gz", "control.sig"} {
+			ms := append(append([]string(nil), members...), decoy)
+			outs := run(ms, "origin", true)
+			if undec != "" {
+				break
+			}
+			for _, o := range outs {
+				if o.errNil {
+					sameP = append(sameP, fmt.Sprintf("with the decoy member %s verification succeeds (over %v) in some iteration order", decoy, o.verified))
+					break
+				}
+			}
+			lo, why := runLoadDeb(p, debScenario{members: ms, binary: "2.0\n", tarEntries: []string{"./control"}})
+			if why != "" {
+				undec = why
+				break
+			}
+			for _, o := range lo {
+				if o.errNil {
+					sameP = append(sameP, "with the decoy member "+decoy+" the loader succeeds in some iteration order: loader and verifier can disagree")
+					break
+				}
+			}
+		}
+		lo, why := runLoadDeb(p, debScenario{members: append(append([]string(nil), members...), "control.tar.gz"), binary: "2.0\n", tarEntries: []string{"./control"}})
+		if why != "" {
+			undec = why
+		} else {
+			for _, o := range lo {
+				if o.errNil {
+					sameP = append(sameP, "a repeated member name is accepted by the loader: the member verified need not be the one first in the archive")
+					break
+				}
+			}
+		}
+	}
+	if undec != "" {
+		for _, r := range []*Rule{role, stream, same} {
+			r.undecided("deb.Deb.CheckDebsig", pos, undec)
+		}
+		return
+	}
+	fillProblems(role, "deb.Deb.CheckDebsig", pos, roleP, "8 roles against a package signed as origin only; missing debian-binary")
+	fillProblems(stream, "deb.Deb.CheckDebsig", pos, streamP, "keyring, signed stream (order, rewinding), signature member and returned results, for a verifying and a failing library verdict")
+	fillProblems(same, "deb.Deb.CheckDebsig", pos, sameP, "3 decoys and a repeated name: verification and loading fail in every iteration order")
 }
 
 func stripIface(v ssa.Value) ssa.Value {
